@@ -126,7 +126,7 @@ def gen_piece(rng: random.Random, enc: str, w: int, h: int, clean: bool, bright:
         return b"\x1b]" + rng.choice([b"0;", b"2;", b";", b"1;", b"P1234567", b"R"]) + tb + rng.choice([b"\x07", b"\x1b\\", b""]), False, "other"
     if q < 0.53:
         # SGR colour selections with out-of-range, missing and surplus values
-        v = lambda: rng.choice(["0", "255", "256", "999", "100000", "", "7"])  # noqa: E731
+        v = lambda: rng.choice(["0", "255", "256", "999", "100000", "", "7", "99999999999"])  # noqa: E731
         body = rng.choice([f"38;2;{v()};{v()};{v()}", f"48;2;{v()};{v()};{v()}", f"38;5;{v()}", f"48;5;{v()}", "38;2", "38;5", f"38;{v()}", f"38;2;{v()};{v()}", f"38;3;{v()};{v()};{v()}", f"1;38;2;{v()};{v()};{v()};4"])
         return csi(body, "m"), False, "other"
     if q < 0.62:
